@@ -50,8 +50,9 @@ CHECKS["C02"] = dict(
          "documented rules are evaluated on the implementation's observed behaviour to find replays. "
          "Two further models with their own theorems and streams: (a) Enum fields over enum classes WITH A MIX-IN TYPE "
          "(str/int mix-in, IntEnum, StrEnum; Fields/EnumMixin.v): C02_enum_mixin_agree / _error_class hold for every class, "
-         "mix-in, declared subset and candidate free of the ==/name confusions, each confusion is refuted by a witness "
-         "(listed findings C02-mixin-eq-confusion, C02-mixin-name-confusion), and the translation of Enum._validate/__set__ "
+         "mix-in, declared subset and EVERY candidate (the ==/name confusions of a membership test by ==, former findings "
+         "C02-mixin-eq-confusion, C02-mixin-name-confusion, are repaired in typedpy: a member is accepted by identity), "
+         "and the translation of Enum._validate/__set__ "
          "regenerated from the source over that universe equals the model (C02_src_enum_mixin); (b) fields over ARBITRARY "
          "classes (Field[Foo], Array[Foo], ...; Fields/ClassField.v): by induction over the HISTORY of earlier declarations a "
          "declaration accepts exactly the instances of its own class whenever the registry key separates class objects "
